@@ -168,6 +168,9 @@ func (s *Solver) checkSat() Result {
 		break
 	}
 	s.Time += time.Since(t0)
+	if s.Log != nil {
+		fmt.Fprintf(s.Log, "; time %.1f ms\n", float64(time.Since(t0).Microseconds())/1000)
+	}
 	return r
 }
 
